@@ -41,6 +41,10 @@ def job(item):
     name = f"{mode}/{path.split('/')[-1][:-5]}/{cvars}/deg={deg}/k={k}"
     out = {"name": name, "records": [], "stats": smt.new_stats(), "refusals": [], "checked": 0, "mutants": 0, "solutions": 0}
     text = open(path).read()
+    if item.get("init"):
+        text = item["init"] + text
+        name += "/random-init"
+        out["name"] = name
     try:
         prog = parse_text(text)
     except LangError as e:
@@ -195,6 +199,15 @@ def main():
     cases = CASES + ([] if run.quick else CASES_THOROUGH)
     items = [{"path": p, "vars": v, "deg": d, "k": k, "N": N, "mode": "inv", "timeout": 200 if run.quick else 600} for p, v, d, k in cases]
     items += [{"path": p, "vars": v, "deg": d, "k": None, "N": N, "mode": "loop", "timeout": 200 if run.quick else 600} for p, v, d in LOOPS]
+    # the same loops entered with RANDOM initial values: E[Q(x0, y0)] is not Q(E x0, E y0) for degree >= 2
+    rinit = [(TESTS + "non-lin-markov-1.prob", ["x", "y"], 2, None, "x = DiscreteUniform(1, 2)\ny = Bernoulli(1/3)\n"),
+             (TESTS + "non-lin-markov-1.prob", ["x", "y"], 1, None, "x = Normal(1, 4)\ny = x + 1 {1/2} x - 2\n"),
+             (TESTS + "squares.prob", ["x", "y"], 2, None, "x = Bernoulli(1/2)\ny = 2*x + 1 {1/3} 0\n"),
+             (TESTS + "fibonaccitrace.prob", ["x", "y", "z"], 3, 1, "x = DiscreteUniform(0, 1)\ny = 1 {1/2} 2\nz = x + y\n")]
+    for p, v, d, k, init in rinit:
+        items.append({"path": p, "vars": v, "deg": d, "k": k, "N": N, "mode": "inv", "timeout": 200 if run.quick else 600, "init": init})
+        if d <= 2:
+            items.append({"path": p, "vars": v, "deg": d, "k": None, "N": N, "mode": "loop", "timeout": 200 if run.quick else 600, "init": init})
     if run.args.only:
         items = [i for i in items if run.args.only in i["path"]]
     results = jobs.run_jobs(job, items, timeout=400 if run.quick else 1500)
